@@ -1283,30 +1283,24 @@ Qed.
 Definition class_names (m : pmodule) : list string := map node_name (declared_classes m).
 Definition func_names (m : pmodule) : list string := map node_name (declared_functions m).
 
-Lemma find_class_module : forall m c,
-    nodup_b (class_names m) = true -> In c (declared_classes m) ->
-    find_class (module_output m) (node_name c) = Some (class_rec c).
+Lemma ms_eqb_by_perm : forall (A : Type) (e : A -> A -> bool) a b,
+    Permutation a b -> ms_eqb_by e a b = true.
 Proof.
-  intros m c Hnd Hc. unfold find_class, module_output. cbn [pf_classes].
-  pose proof (out_classes_perm m) as Hp.
-  assert (Hin : In (class_rec c) (out_classes m)).
-  { eapply Permutation_in; [apply Permutation_sym; exact Hp|]. now apply in_map. }
-  assert (Hn : NoDup (map pc_name (out_classes m))).
-  { eapply Permutation_NoDup; [apply Permutation_sym; apply Permutation_map; exact Hp|].
-    rewrite class_rec_name. now apply nodup_b_sound. }
-  replace (node_name c) with (pc_name (class_rec c)) by (destruct c; reflexivity).
-  now apply (find_key_nodup pclass pc_name).
+  intros A e a b H. unfold ms_eqb_by. apply forallb_forall. intros k _. apply Nat.eqb_eq.
+  unfold count_by. apply Permutation_length. now apply filter_perm.
 Qed.
 
 Lemma class_methods_defs : forall c, class_methods c = filter is_def (node_kids c).
 Proof. reflexivity. Qed.
 
-Lemma module_py_methods : forall m,
-    nodup_b (class_names m) = true -> py_methods_ok m (module_output m) = true.
+Lemma expected_class_rec : forall l, map expected_class l = map class_rec l.
+Proof. intros l. apply map_ext. intros c. reflexivity. Qed.
+
+(* no hypothesis on names: duplicates (two classes of one name, local to two methods) are matched as a multiset *)
+Lemma module_py_methods : forall m, py_methods_ok m (module_output m) = true.
 Proof.
-  intros m Hnd. unfold py_methods_ok. apply forallb_forall. intros c Hc.
-  rewrite (find_class_module m c Hnd Hc). unfold pc_funcs, class_rec. cbn [snd].
-  rewrite class_methods_defs. rewrite map_map. cbn [meth_out fst]. apply ms_eqb_refl.
+  intros m. unfold py_methods_ok, module_output. cbn [pf_classes].
+  apply ms_eqb_by_perm. rewrite expected_class_rec. apply out_classes_perm.
 Qed.
 
 Lemma decos_eqb_refl : forall l, decos_eqb l l = true.
@@ -1321,41 +1315,21 @@ Proof.
   fold (out_members m). cbn. now rewrite IH.
 Qed.
 
-Lemma module_py_decorators : forall m,
-    nodup_b (class_names m) = true ->
-    forallb (fun c => nodup_b (map node_name (class_methods c))) (declared_classes m) = true ->
-    nodup_b (func_names m) = true ->
-    py_decorators_ok m (module_output m) = true.
+Lemma member_funcs_expected : forall m,
+    obs_member_funcs (module_output m) = map expected_func (declared_functions m).
 Proof.
-  intros m Hnd Hnm Hnf. unfold py_decorators_ok. apply andb_true_iff. split.
-  - apply forallb_forall. intros c Hc. rewrite (find_class_module m c Hnd Hc).
-    unfold pc_decos, pc_funcs, class_rec. cbn [fst snd]. rewrite decos_eqb_refl. cbn [andb].
-    apply forallb_forall. intros md Hmd. rewrite class_methods_defs in Hmd.
-    assert (Hf : find (fun fn : string * list pdeco => String.eqb (fst fn) (node_name md))
-                      (map meth_out (filter is_def (node_kids c))) = Some (meth_out md)).
-    { apply (find_key_nodup pfunc fst (map meth_out (filter is_def (node_kids c))) (meth_out md)).
-      - rewrite map_map. cbn [meth_out fst]. rewrite forallb_forall in Hnm. specialize (Hnm c Hc).
-        rewrite class_methods_defs in Hnm. now apply nodup_b_sound.
-      - now apply in_map. }
-    rewrite Hf. cbn [meth_out snd]. apply decos_eqb_refl.
-  - apply forallb_forall. intros fd Hfd. pose proof Hfd as Hfd'.
-    unfold declared_functions, top_nodes in Hfd.
-    apply filter_In in Hfd. destruct Hfd as [Hin Hk].
-    apply in_flat_map in Hin. destruct Hin as [it [Hit Hin]].
-    destruct it as [names|src names paren|n]; try (destruct Hin; fail).
-    destruct Hin as [Hin|[]]. subst n. destruct fd as [k d nm kids]. cbn in Hk.
-    destruct k; [discriminate|]. cbn [node_name node_decos].
-    assert (Hm : In (nm, [(nm, d)]) (out_members m)).
-    { unfold out_members. apply in_flat_map. eexists. split; [exact Hit|]. now left. }
-    assert (Hx : In (nm, d) (obs_member_funcs (module_output m))).
-    { unfold obs_member_funcs, module_output. cbn [pf_members]. apply in_flat_map.
-      eexists. split; [exact Hm|]. now left. }
-    assert (Hf : find (fun fn : string * list pdeco => String.eqb (fst fn) nm)
-                      (obs_member_funcs (module_output m)) = Some (nm, d)).
-    { apply (find_key_nodup pfunc fst (obs_member_funcs (module_output m)) (nm, d)).
-      - apply nodup_b_sound. unfold func_names in Hnf. rewrite <- member_func_names in Hnf. exact Hnf.
-      - exact Hx. }
-    rewrite Hf. cbn [snd]. apply decos_eqb_refl.
+  intros m. unfold obs_member_funcs, module_output, declared_functions, top_nodes. cbn [pf_members].
+  induction m as [|it m IH]; auto.
+  destruct it as [names|src names paren|[[|] d nm kids]]; cbn [out_members flat_map app map filter]; auto.
+  fold (out_members m). cbn. now rewrite IH.
+Qed.
+
+Lemma module_py_decorators : forall m, py_decorators_ok m (module_output m) = true.
+Proof.
+  intros m. unfold py_decorators_ok. apply andb_true_iff. split.
+  - unfold module_output. cbn [pf_classes]. apply ms_eqb_by_perm. rewrite expected_class_rec.
+    apply out_classes_perm.
+  - rewrite member_funcs_expected. apply ms_eqb_by_perm. apply Permutation_refl.
 Qed.
 
 Lemma module_py_functions : forall m, py_functions_ok m (module_output m) = true.
@@ -1404,17 +1378,13 @@ Qed.
 
 
 (* Every Python module -- classes and defs nested in each other in any way and to any depth,
-   decorators anywhere -- with one module per import statement, alias-free from-imports,
-   distinct class names, distinct method names per class and distinct module-level function
-   names is listed exactly. *)
+   decorators anywhere, the same class name, method name or function name any number of times -- with
+   one module per import statement and alias-free from-imports is listed exactly. *)
 Theorem py_decls_exact : forall m,
     forallb item_ok m = true ->
-    nodup_b (class_names m) = true ->
-    forallb (fun c => nodup_b (map node_name (class_methods c))) (declared_classes m) = true ->
-    nodup_b (func_names m) = true ->
     py_verdict m (py_front m) = [].
 Proof.
-  intros m H Hc Hm Hf. rewrite py_module_output. unfold py_verdict.
+  intros m H. rewrite py_module_output. unfold py_verdict.
   rewrite module_py_classes, module_py_methods, module_py_decorators, module_py_functions, module_py_imports
     by assumption.
   reflexivity.
@@ -1422,14 +1392,11 @@ Qed.
 
 (* whatever the import statements look like, the declaration clauses hold *)
 Theorem py_listing_exact : forall m o,
-    nodup_b (class_names m) = true ->
-    forallb (fun c => nodup_b (map node_name (class_methods c))) (declared_classes m) = true ->
-    nodup_b (func_names m) = true ->
     py_front m = POk o ->
     py_classes_ok m o = true /\ py_methods_ok m o = true /\ py_decorators_ok m o = true /\
     py_functions_ok m o = true.
 Proof.
-  intros m o Hc Hm Hf Ho. rewrite py_module_output in Ho. inversion Ho; subst o.
+  intros m o Ho. rewrite py_module_output in Ho. inversion Ho; subst o.
   repeat split; [apply module_py_classes|apply module_py_methods|apply module_py_decorators|
                  apply module_py_functions]; auto.
 Qed.
@@ -1733,6 +1700,30 @@ Lemma py_local_class_example :
   py_front ex_py_local_class = POk (mkPFile [] [("C", [], [("m", [])])] [("f", [("f", [])])]) /\
   py_verdict ex_py_local_class (py_front ex_py_local_class) = [].
 Proof. split; [vm_compute; reflexivity|apply py_decls_exact; vm_compute; reflexivity]. Qed.
+
+(* class Base: def run(self): class L: pass   /  class Svc: @property def x / @x.setter def x; def run(self): class L: def stop
+   -- the same class name twice (local to two methods), the same method name twice in a class: listed exactly, and
+   the decider tells the two L apart: an output that gives both no method, or drops the setter's decorator, is
+   rejected *)
+Definition ex_py_dups : pmodule :=
+  [PDecl (PNode true [] "Base" [PNode false [] "run" [PNode true [] "L" []]]);
+   PDecl (PNode true [] "Svc" [PNode false [("property", [])] "x" []; PNode false [("x.setter", [])] "x" [];
+                                PNode false [] "run" [PNode true [] "L" [PNode false [] "stop" []]]])].
+
+Lemma py_dups_example :
+  py_front ex_py_dups =
+    POk (mkPFile [] [("L", [], []); ("Base", [], [("run", [])]); ("L", [], [("stop", [])]);
+                     ("Svc", [], [("x", [("property", [])]); ("x", [("x.setter", [])]); ("run", [])])] []) /\
+  py_verdict ex_py_dups (py_front ex_py_dups) = [] /\
+  py_verdict ex_py_dups
+    (POk (mkPFile [] [("L", [], []); ("Base", [], [("run", [])]); ("L", [], []);
+                      ("Svc", [], [("x", [("property", [])]); ("x", [("x.setter", [])]); ("run", [])])] []))
+    = ["py_methods"; "py_decorators"] /\
+  py_verdict ex_py_dups
+    (POk (mkPFile [] [("L", [], []); ("Base", [], [("run", [])]); ("L", [], [("stop", [])]);
+                      ("Svc", [], [("x", [("property", [])]); ("x", [("property", [])]); ("run", [])])] []))
+    = ["py_decorators"].
+Proof. split; [vm_compute; reflexivity|]. split; [apply py_decls_exact; vm_compute; reflexivity|]. split; vm_compute; reflexivity. Qed.
 
 (* the entry of a declared type, stated on go_front *)
 Lemma go_cell_of_decl : forall f,
